@@ -13,7 +13,7 @@ EXPLANATION = (
     "the returned vector on every path of its iteration. R3 (the walk): delete_components loops over MetaTable::iter_mut and every iteration "
     "calls AnyStorage::drop(item, the parameter); <MaskedStorage<T> as AnyStorage>::drop calls MaskedStorage::drop(self, id of each element). "
     "R4 (who may purge): the crate-local callers of delete_components are a subset of {delete_entities, maintain}, of AnyStorage::drop a subset of "
-    "{delete_components}, of MaskedStorage::drop(id) a subset of {the AnyStorage impl}."
+    "{delete_components}, of MaskedStorage::drop(id) a subset of {the AnyStorage impl} plus checked accessors (the id is the index of a handle whose own aliveness test guards the call - a destroy-in-place twin of Storage::remove)."
 )
 NOT_DECIDED = ("that shred's MetaTable::iter_mut visits every registered storage; that the slice bounded by the failure position is exactly the killed "
                "prefix (value-dependent; the killed prefix itself is C02); components of entities not being deleted are untouched because only the "
@@ -273,6 +273,25 @@ def r4(ctx, facts):
     c2 |= {b.path for b in facts.bodies for _, t in b.calls() if t["callee"].get("path") == "storage::AnyStorage::drop"}
     bad = [c for c in c2 if not any(x.trait_item == "world::world_ext::WorldExt::delete_components" for x in facts.by_path[c])]
     ctx.ob("C05-R4", "callers of AnyStorage::drop", not bad and bool(c2), "", "" if not bad else "unexpected caller(s): %s" % bad)
-    c3 = who(lambda b: b.name == "drop" and not b.trait_item and base_ty(b.self_ty or "") == "storage::MaskedStorage" and b.argc == 2)
+    is_md = lambda b: b.name == "drop" and not b.trait_item and base_ty(b.self_ty or "") == "storage::MaskedStorage" and b.argc == 2
+    c3 = who(is_md)
     bad = [c for c in c3 if not any(x.trait_item == "storage::AnyStorage::drop" for x in facts.by_path[c])]
+    # A caller other than the purge is a *checked accessor* (the destroy-in-place twin of Storage::remove), not a second purge, when every
+    # id it hands to MaskedStorage::drop is the index of a handle whose own aliveness test guards the call (the C03-R1 condition): it can
+    # only touch the component of the live entity the user named.  Anything else that reaches the per-index purge is reported.
+    from ..summaries import AliveClass, entity_of_index
+    alive = AliveClass(facts)
+    still = []
+    for c in bad:
+        ok_all = True
+        for cb in facts.by_path[c]:
+            for bb, t in cb.calls():
+                if not any(is_md(tb) for tb in facts.targets(t["callee"])):
+                    continue
+                x = entity_of_index(cb, cb.arg_origin(bb, 1))
+                if x is None or not alive.guarded(cb, bb, x)[0]:
+                    ok_all = False
+        if not ok_all:
+            still.append(c)
+    bad = still
     ctx.ob("C05-R4", "callers of MaskedStorage::drop(id)", not bad and bool(c3), "", "" if not bad else "unexpected caller(s): %s" % bad)
